@@ -72,6 +72,18 @@ def rule_single_exit(ctx):
                 ty = place_ty(b, c.place)
                 if c.is_discr and "core::result::Result<" in ty and "anyhow::Error" in ty and not c.negated and c.values == ["1"]:
                     on_err = True
+            if not on_err and b.kind != "closure" and b.ret_ty.strip() == "!" and any("anyhow::Error" in b.local_ty(i) for i in range(1, b.n_args + 1)):
+                # a diverging helper that receives the error (`fn exit_on_error(e) -> !`): every call of it is on an Err arm
+                css = prog.callers_of(b)
+                ok_all = bool(css)
+                for cs in css:
+                    okc = False
+                    for c in conditions(cs.body, cs.bb):
+                        ty = place_ty(cs.body, c.place)
+                        if c.is_discr and "core::result::Result<" in ty and "anyhow::Error" in ty and not c.negated and c.values == ["1"]:
+                            okc = True
+                    ok_all = ok_all and okc
+                on_err = ok_all
             r.check(on_err, t + "|" + b.path, "not-on-err", "exit is on the Err arm of an anyhow Result", "process::exit is not guarded by the Err arm of the command result", s.loc())
     # the library never exits
     lib_exits = [(b, s) for b in prog.lib_bodies() for s in b.calls() if callee_is(callee_of(s), "std::process::exit", "std::process::abort")]
@@ -114,20 +126,40 @@ def rule_usage_errors(ctx):
                 r.ok(anchor, "no Ok(..) is returned on the Err arm of the clap result", b.loc())
                 continue
             for s, conds in oks:
-                kinds = None
+                kinds = None  # set of variant names the error kind can have on this path (None = untested)
+                undecided = False
                 for c in conds:
                     if c.is_discr and c.place["l"] == res and c.place["p"] and "ErrorKind" in place_ty(b, c.place):
-                        vs = set(c.values)
+                        if ek is None:
+                            undecided = True
+                            continue
+                        vs = {ek.get(v, v) for v in c.values}
                         if c.negated:
-                            vs = (set(ek) - vs) if ek else {"?"}
+                            vs = set(ek.values()) - vs
                         kinds = vs if kinds is None else kinds & vs
+                    elif not c.is_discr and c.is_true():
+                        # `e.kind == ErrorKind::X` (a guard): PartialEq::eq of the error kind with a constant variant
+                        for o in origins(b, c.place, transparent=()):
+                            if o.kind == "call" and callee_matches(o.data, r"^core::cmp::PartialEq::eq$") and any("ErrorKind" in x for x in (o.data.get("substs") or [])):
+                                names = set()
+                                reads_kind = False
+                                for a in o.site.node["args"]:
+                                    for oo in origins(b, a, transparent=()):
+                                        if oo.kind == "const" and oo.data.get("variant"):
+                                            names.add(oo.data["variant"])
+                                        elif oo.kind == "call" and oo.site.node["dst"]["l"] == res and oo.fields and str(oo.fields[-1]) == "kind":
+                                            reads_kind = True
+                                if reads_kind and names:
+                                    kinds = names if kinds is None else kinds & names
+                                elif reads_kind:
+                                    undecided = True
+                if kinds is None and undecided:
+                    r.ok(anchor, "Ok(..) under a test of the clap error kind that could not be evaluated: NOT decided", s.loc())
+                    continue
                 if kinds is None:
                     r.violation(anchor, "ok-on-any-clap-error", "Ok(..) is returned on the Err arm of the clap result without a test of the error kind: a rejected command line exits 0", s.loc())
                     continue
-                if ek is None:
-                    r.ok(anchor, "Ok(..) under a test of the clap error kind (variant names not available: NOT decided which)", s.loc())
-                    continue
-                names = sorted(ek.get(v, v) for v in kinds)
+                names = sorted(kinds)
                 r.check(set(names) <= {"HelpDisplayed", "VersionDisplayed"}, anchor, "ok-on:%s" % names, "Ok(..) on a clap error only for %s" % names, "a command line rejected by clap with %s returns Ok: usage errors exit with status 0" % [x for x in names if x not in ("HelpDisplayed", "VersionDisplayed")], s.loc())
     r.floor(n, 2, "functions parsing the command line with get_matches_from_safe")
 
@@ -311,20 +343,41 @@ def rule_problem_names(ctx):
         ok_as = all(at.get(v) == [v] for v in variants)
         r.check(ok_as, enum_path + "|AsRef", "table=%s" % sorted(at.items()), "AsRef<str> prints each variant by its own name", "AsRef<str> table is %s" % sorted(at.items()), asref.loc())
         names[enum_path] = {v: (at.get(v) or ["?"])[0] for v in variants}
+        # the table: in try_from itself, or in a local helper it hands the (lower-cased) string to
+        tbody, tcall = tryfrom, None
         tt, eqs, problems = string_match_table(tryfrom, enum_path)
+        if not tt:
+            for cs, t in prog.callees(tryfrom, include_closures=False, virtual_dispatch=False):
+                if t.kind != "closure" and t.path.startswith("aa::problem"):
+                    t2, e2, p2 = string_match_table(t, enum_path)
+                    if t2:
+                        tbody, tcall, tt, eqs, problems = t, cs, t2, e2, p2
         want = {names[enum_path][v].lower(): v for v in variants}
         r.check(tt == want and not problems, enum_path + "|TryFrom", "table=%s" % sorted(tt.items()), "TryFrom<&str> maps exactly %s" % sorted(tt.items()), "TryFrom<&str> table %s differs from lowercase(AsRef) table %s" % (sorted(tt.items()), sorted(want.items())), tryfrom.loc())
         # scrutinee = to_ascii_lowercase(param)
         ok_lc = bool(eqs)
         for c in eqs:
-            for o in origins(tryfrom, c.place, transparent=()):
+            for o in origins(tbody, c.place, transparent=()):
                 if o.kind == "call":
-                    _, calls, _ = data_deps(tryfrom, o.site.node["args"][0])
-                    if not any(callee_matches(callee_of(x), r"str::to_ascii_lowercase$|str::to_lowercase$") and derives_from_local(tryfrom, x.node["args"][0], 1) for x in calls):
-                        ok_lc = False
+                    if tcall is None:
+                        _, calls, _ = data_deps(tbody, o.site.node["args"][0])
+                        if not any(callee_matches(callee_of(x), r"str::to_ascii_lowercase$|str::to_lowercase$") and derives_from_local(tbody, x.node["args"][0], 1) for x in calls):
+                            ok_lc = False
+                    else:
+                        # the helper matches one of its parameters; the caller passes to_ascii_lowercase(input)
+                        ps = [k for k in range(1, tbody.n_args + 1) if derives_from_local(tbody, o.site.node["args"][0], k)]
+                        okp = False
+                        for k in ps:
+                            if k - 1 < len(tcall.node["args"]):
+                                _, calls, _ = data_deps(tryfrom, tcall.node["args"][k - 1])
+                                if any(callee_matches(callee_of(x), r"str::to_ascii_lowercase$") and derives_from_local(tryfrom, x.node["args"][0], 1) for x in calls):
+                                    okp = True
+                        if not okp:
+                            ok_lc = False
         r.check(ok_lc, enum_path + "|TryFrom", "not-case-insensitive", "the matched string is to_ascii_lowercase(input)", "the string matched by TryFrom is not the lower-cased input: names are not accepted case-insensitively", tryfrom.loc())
         # wildcard arm -> Err
         errs = [s for s in tryfrom.sites() if s.si is not None and s.node["k"] == "assign" and s.node["rv"]["k"] == "aggregate" and s.node["rv"]["agg"].get("variant") == "Err"]
+        errs += [s for s in tryfrom.calls() if callee_matches(callee_of(s), r"^core::option::Option::(ok_or|ok_or_else)$")]
         r.check(len(errs) >= 1, enum_path + "|TryFrom", "no-err-arm", "unknown names give Err", loc=tryfrom.loc())
         # EnumIter coverage
         itb = prog.lib(enum_path + "Iter::get")
@@ -338,7 +391,8 @@ def rule_problem_names(ctx):
         return
     from ..fmtq import format_sites
 
-    fss = [fs for x in prog.with_closures(lst) for fs in format_sites(x)]
+    lbodies = [x for x in prog.reachable_from([lst], virtual_dispatch=False).values() if x.path.startswith("aa::problem")]
+    fss = [fs for x in lbodies for fs in format_sites(x)]
     ok_t = len(fss) == 1 and fss[0].template == "{}-{}"
     order_ok = False
     if ok_t and len(fss[0].args) == 2 and all(fss[0].args):
@@ -351,6 +405,7 @@ def rule_problem_names(ctx):
     r.check(ok_t and order_ok, lst.id, "template=%s" % [f.template for f in fss], "names are printed as `<query>-<semantics>`", "the listing template/argument order is not `<query>-<semantics>`", lst.loc())
     # parser: split at the first '-' ; left -> Query::try_from, right -> Semantics::try_from
     finds = [s for s in rd.calls() if callee_matches(callee_of(s), r"^core::str::find$")]
+    splits = [s for s in rd.calls() if callee_matches(callee_of(s), r"^core::str::split_once$")]
     ok_find = len(finds) == 1 and (op_const(finds[0].node["args"][1]) or {}).get("int") == 45
     tq = [s for s in rd.calls() if callee_matches(callee_of(s), r"^<aa::problem::Query as core::convert::TryFrom<&str>>::try_from$")]
     ts = [s for s in rd.calls() if callee_matches(callee_of(s), r"^<aa::problem::Semantics as core::convert::TryFrom<&str>>::try_from$")]
@@ -365,6 +420,18 @@ def rule_problem_names(ctx):
                             kinds.add(oo.data.get("path"))
             return kinds
         ok_parts = range_kind(tq[0]) == {"core::ops::range::Range"} and range_kind(ts[0]) == {"core::ops::range::RangeFrom"}
+        if not ok_find and len(splits) == 1 and (op_const(splits[0].node["args"][1]) or {}).get("int") == 45:
+            # `problem.split_once('-')`: (before the first hyphen, after it)
+            def part(s):
+                out = set()
+                for o in origins(rd, s.node["args"][0], transparent=()):
+                    if o.kind == "call" and o.site.bb == splits[0].bb and o.fields:
+                        out.add(str(o.fields[-1]))
+                    else:
+                        out.add("?")
+                return out
+            if part(tq[0]) == {"0"} and part(ts[0]) == {"1"}:
+                ok_find = ok_parts = True
     r.check(ok_find and ok_parts, rd.id, "split", "the problem string is split at its first hyphen into query and semantics", "the parser does not split `<query>-<semantics>` at the first hyphen", rd.loc())
     # final oracle: the 21 names of the statement
     if all(p in names for p in ("aa::problem::Semantics", "aa::problem::Query")):
